@@ -339,6 +339,10 @@ func (s *webServer) refreshTokenHandler(w http.ResponseWriter, r *http.Request, 
 }
 
 func (s *webServer) tokenExchangeHandler(w http.ResponseWriter, r *http.Request, client Client) {
+	if client.AuthMethod() == oidc.AuthMethodNone {
+		WriteError(w, r, oidc.ErrInvalidClient().WithDescription("client must be authenticated"), s.getLogger(r.Context()))
+		return
+	}
 	request, err := decodeRequest[oidc.TokenExchangeRequest](s.decoder, r, false)
 	if err != nil {
 		WriteError(w, r, err, s.getLogger(r.Context()))
